@@ -177,7 +177,13 @@ func (b *verifC35Inner) List(_ context.Context, _ backend.FileType, fn func(back
 			b.trace = append(b.trace, verifC35Ev{op: verifC35OpList, err: e, cancelled: b.env.ctx.Err() != nil})
 			return e
 		}
-		if err := fn(backend.FileInfo{Name: n, Size: 1}); err != nil {
+		// the reported size of a file may differ between listing attempts (upload in progress,
+		// file being replaced): 1 or 2
+		size := int64(1)
+		if verifrt.Bool("sizeChanged") {
+			size = 2
+		}
+		if err := fn(backend.FileInfo{Name: n, Size: size}); err != nil {
 			b.trace = append(b.trace, verifC35Ev{op: verifC35OpList, err: err, cancelled: b.env.ctx.Err() != nil})
 			return err
 		}
@@ -575,7 +581,7 @@ func VerifC35_List() {
 		verifrt.Assert(fnErr == nil, "callback invoked again after it returned an error")
 		calls++
 		seen[fi.Name]++
-		verifrt.Assert(fi.Size == 1, "file info altered")
+		verifrt.Assert(fi.Size == 1 || fi.Size == 2, "file info altered")
 		if verifrt.Bool("fnfail") {
 			fnErr = &verifC35Err{n: -1, kind: verifC35Transient}
 			return fnErr
